@@ -75,6 +75,9 @@ class Prop(PropBase):
         np, u = self.np, self.u
         N = case["N"]
         b = np.array(case["bins"], dtype=float).reshape(case["shp"]) if case["shp"] else float(case["bins"][0])
+        if case["shp"] and len(case["shp"]) >= 2 and case["seed"] % 2:
+            # same values, other memory layout: Fortran order, or a transposed view of the transposed copy
+            b = np.asfortranarray(b) if case["seed"] % 4 == 1 else np.ascontiguousarray(b.T).T
         q = (b * (case["rate"] / N) * u.Hz).to(u.Unit(case["unit"]))
         # the doubles the code derives: ft = (shift[ix] * z.dt).to_value(one); a = ft * len(x)
         sh = q.to(u.Hz)
